@@ -827,6 +827,12 @@ class BlockBase(Base):
                             content[-1].get_end_label(),
                         )
                         if start_label != end_label:
+                            if isinstance(obj, di.End_Do_Stmt):
+                                # This END DO ends no DO: the loops nested
+                                # in this block have taken theirs.
+                                for previous in reversed(content):
+                                    previous.restore_reader(reader)
+                                return None
                             continue
                     if match_names:
                         start_name, end_name = (
